@@ -163,6 +163,59 @@ func c02Violation(idx []int, gaps []string) core.Violation {
 	return core.Violation{Kind: k, Case: fmt.Sprintf("%q", src), Detail: d, Payload: pl, Size: len(sh)}
 }
 
+// c02Class6 (thorough): length 6 over the class alphabet.
+func c02Class6(c *core.Ctx) {
+	if c.Thorough() {
+		cls := make([]int, len(gen.TClass))
+		for i, t := range gen.TClass {
+			for j, u := range gen.T {
+				if t == u {
+					cls[i] = j
+				}
+			}
+		}
+		idx := make([]int, 6)
+		g6 := make([]string, 5)
+		gen.EachSeq(len(cls), 6, func(ci []int) bool {
+			if !c.Next() {
+				return true
+			}
+			if c.Tick() {
+				return false
+			}
+			for i, x := range ci {
+				idx[i] = cls[x]
+			}
+			c.Inc("token_sequences")
+			if !c02Prefilter(idx) {
+				c.Inc("prefiltered")
+				return true
+			}
+			for _, sep := range []string{" ", "\n"} {
+				for g := range g6 {
+					g6[g] = sep
+				}
+				src := c02Render(idx, g6)
+				c.Cur(src)
+				c.Inc("reference_parses")
+				out, k, _ := c02Check(src)
+				if out {
+					continue
+				}
+				c.Inc("programs")
+				c.Inc("programs_length_6_class_alphabet")
+				if k != "" && c.ShrinkOK(k) {
+					c.Violate(c02Violation(append([]int{}, idx...), append([]string{}, g6...)))
+				}
+			}
+			return true
+		})
+		if !c.Expired() {
+			c.SetMax("token_length_completed_class_alphabet", 6)
+		}
+	}
+}
+
 func c02Run(c *core.Ctx) {
 	n := 4
 	if c.Thorough() {
@@ -256,6 +309,7 @@ func c02Run(c *core.Ctx) {
 			c.Violate(core.Violation{Kind: k, Config: "number", Case: fmt.Sprintf("%q", src), Detail: d, Payload: pl, Size: len(lit)})
 		}
 	}
+	c02Class6(c)
 	// soundness self-check of the prefilter at n<=3: nothing it drops may be a valid subset program
 	if c.Shard == 0 {
 		for L := 1; L <= 3; L++ {
